@@ -311,8 +311,8 @@ def canon(op, args, r):
                 r = dict(r, jwe=dict(r["jwe"], ciphertext="<ct>", tag="<tag>"))
         if op == "jwe.dec_jwk" and isinstance(r.get("v"), dict) and isinstance(r["v"].get("k"), str) and (rsa15(args.get("jwe")) or '"RSA"' in json.dumps(args.get("jwk"))):
             # RSA1_5 hands out a random content key when the padding is bad (drawn from the tape while it lasts, from the
-            # real generator behind it): its length is comparable, its bytes are not
-            r = dict(r, v=dict(r["v"], k="<%d chars>" % len(r["v"]["k"])))
+            # real generator behind it): neither its bytes nor, past the tape, its length are comparable
+            r = dict(r, v=dict(r["v"], k="<k>"))      # (not even its length: the model stops at the end of the tape)
         if op in ("jws.sig", "jws.sig_io", "jwe.enc", "jwe.enc_jwk", "jwk.gen", "ossl.roundtrip") :
             return {k: v for k, v in r.items() if k in ("ok", "imported", "args_mutated", "refs_changed", "crash", "error")}
     return r
